@@ -235,16 +235,20 @@ impl CompactionManifest {
             if has_expanded_files && is_expanded_files_less_than_size_limit {
                 let new_compaction_range =
                     FileMetadata::get_key_range_for_files(&expanded0_compaction_files);
-                let expanded1_files = input_version
+                let mut expanded1_files = input_version
                     .read()
                     .element
                     .get_overlapping_compaction_inputs_strong(
                         self.level + 1,
                         Some(&new_compaction_range.start)..Some(&new_compaction_range.end),
                     );
+                // The re-computed parent level inputs need their boundary files just like the
+                // original ones. Otherwise a parent file that holds the older entries of the last
+                // user key of its neighbour can drop out of the compaction while the neighbour
+                // (and e.g. the tombstone at its end) is compacted.
                 CompactionManifest::add_boundary_inputs(
-                    &input_version.write().element.files[self.level],
-                    &mut expanded0_compaction_files,
+                    &input_version.write().element.files[self.level + 1],
+                    &mut expanded1_files,
                 );
 
                 if expanded1_files.len() == self.input_files[1].len() {
